@@ -170,6 +170,12 @@ class Check(core.CheckBase):  # pylint: disable=too-many-public-methods
                 index += 1
                 if self.mine(index):
                     yield {'kind': 'extension-type', 'side': side, 'codes': codes[start:start + 256]}
+        # the same code spaces as they arrive in practice: inside a client hello (suites, compression methods) and as the
+        # single selected suite of a server hello
+        for start in range(0, 2 ** 16, 256):
+            index += 1
+            if self.mine(index):
+                yield {'kind': 'hello-codes', 'start': start, 'count': 256}
         for name in sorted(self.opaque):
             index += 1
             if self.mine(index):
@@ -313,7 +319,95 @@ class Check(core.CheckBase):  # pylint: disable=too-many-public-methods
                                                                  min(len(again), len(data)))), case))
         except Exception as e:  # pylint: disable=broad-except
             found.append(self.violation('container|%s|compose-raises:%s' % (short, type(e).__name__), repr(e), case))
+        found.extend(self._container_cut(short, cls, param, size, body, case))
         return found, False
+
+    def _container_cut(self, short, cls, param, size, body, case):
+        """The declared length is the frame: when it ends inside the last code and the octets of that code (and more) follow
+        the list, no item may be made from octets beyond the frame - the list is refused, or what is accepted composes back
+        to exactly the framed octets."""
+        found = []
+        declared = len(body) - 1
+        if size < 2 or declared < max(1, param.min_byte_num):
+            return found
+        data = declared.to_bytes(param.item_num_size, 'big') + body + body[:size]
+        self.stats['container_cut_parses'] += 1
+        try:
+            vector, consumed = cls.parse_immutable(data)
+        except self.four:
+            return found
+        except Exception as e:  # pylint: disable=broad-except
+            found.append(self.violation('container|%s|leak:%s' % (short, type(e).__name__),
+                                        'a list whose length ends inside its last code raised %r' % e, case))
+            return found
+        try:
+            again = bytes(vector.compose())
+        except Exception:  # pylint: disable=broad-except
+            again = None
+        if consumed != param.item_num_size + declared or again != data[:consumed]:
+            found.append(self.violation(
+                'container|%s|reads-past-frame' % short,
+                'declared %d octets (%s), followed by %s: accepted as %d items consuming %d octets' % (
+                    declared, body[max(0, declared - 3):declared].hex(), data[param.item_num_size + declared:][:4].hex(),
+                    len(vector), consumed), case))
+        return found
+
+    def judge_hello_codes(self, case):  # pylint: disable=too-many-locals,too-many-branches
+        from vmon.ref import tls as ref  # pylint: disable=import-outside-toplevel
+        import cryptoparser.tls.subprotocol as sub  # pylint: disable=import-outside-toplevel
+        from cryptodatahub.tls.algorithm import TlsCipherSuite  # pylint: disable=import-outside-toplevel
+        found = []
+        codes = list(range(case['start'], case['start'] + case['count']))
+        self.observe(('hello-codes', case['start'], case['count']), True, case)
+        table = code_table(TlsCipherSuite)
+        markers = {0x5600: 'fallback_scsv', 0x00ff: 'empty_renegotiation_info_scsv'}
+        # the list holds at most 255 one-byte codes: all but the last in the first hello, all but the first in the second
+        compressions = list(range(255)) if case['start'] == 0 else list(range(1, 256)) if case['start'] == 256 else [0]
+        data = ref.client_hello(0x0303, b'\x11' * 32, b'', codes, compressions, [])
+        self.stats['hello_code_parses'] += 1
+        try:
+            hello = sub.TlsHandshakeClientHello.parse_exact_size(data)
+        except Exception as e:  # pylint: disable=broad-except
+            key = 'rejected' if isinstance(e, self.four) else 'leak:' + type(e).__name__
+            found.append(self.violation('container|TlsHandshakeClientHello|%s' % key,
+                                        'a client hello offering the codes 0x%04x..0x%04x raised %r' % (codes[0], codes[-1], e), case))
+            return found
+        expected = [code for code in codes if code not in markers]
+        self._check_items('TlsHandshakeClientHello.cipher_suites', list(hello.cipher_suites), expected, table, 2, found, case, True)
+        for code, flag in markers.items():
+            if bool(getattr(hello, flag)) != (code in codes):
+                found.append(self.violation('container|TlsHandshakeClientHello|%s' % flag,
+                                            '%s is %r for a hello that %s 0x%04x' % (
+                                                flag, getattr(hello, flag), 'offers' if code in codes else 'does not offer', code), case))
+        if len(compressions) > 1:
+            got = [item_code(item)[0] for item in hello.compression_methods]
+            if got != compressions:
+                found.append(self.violation('container|TlsHandshakeClientHello|compression-altered',
+                                            '%d compression method codes came back as %r..' % (len(compressions), got[:8]), case))
+        # the selected suite of a server hello, one code at a time (every 8th code in the quick tier)
+        for code in codes[::1 if self.tier == 'thorough' else 8]:
+            self.stats['hello_code_parses'] += 1
+            wire = ref.server_hello(0x0303, b'\x22' * 32, b'', code, 0, [])
+            single = dict(case, code=code)
+            try:
+                server = sub.TlsHandshakeServerHello.parse_exact_size(wire)
+            except self.four:
+                if code in table:
+                    found.append(self.violation('container|TlsHandshakeServerHello|known-rejected',
+                                                'a server hello selecting the assigned suite 0x%04x is rejected' % code, single))
+                continue
+            except Exception as e:  # pylint: disable=broad-except
+                found.append(self.violation('container|TlsHandshakeServerHello|leak:%s' % type(e).__name__,
+                                            'a server hello selecting 0x%04x raised %r' % (code, e), single))
+                continue
+            got, kind = item_code(server.cipher_suite)
+            if got != code or (code in table) != (kind == 'member'):
+                found.append(self.violation('container|TlsHandshakeServerHello|altered',
+                                            'selected suite 0x%04x came back as %r (%s)' % (code, got, kind), single))
+        dedup = {}
+        for violation in found:
+            dedup.setdefault(violation.key, violation)
+        return list(dedup.values())
 
     def judge_container(self, case):
         cls, factory = self.vectors[case['vector']]
